@@ -496,6 +496,8 @@ class Laws:
                 ok = bool(back == o) and type(back) is type(o) and isinstance(p, P)
                 detail = f"got {sl.short(repr(back), 140)}"
                 sig = "neq:" + _type_changes(o, back)
+                if not ok:
+                    detail += "; changed: " + _changed_fields(o, back)
             except Exception as e:
                 ok, detail = False, f"raised {type(e).__name__}: {sl.short(str(e).replace(chr(10), ' '), 140)}"
                 sig = f"{self.label}:raised {type(e).__name__}"
@@ -562,6 +564,22 @@ class Laws:
         rec.check(ceq(got, exp) and type(res) is P, f"c14:harvest-fold-differs:{self._diff(exp, got)[0] if not ceq(got, exp) else 'type'}",
                   f"{self.label}: harvest() = {sl.short(json.dumps(cshow(got), default=repr), 130)}, expected fold {sl.short(json.dumps(cshow(exp), default=repr), 130)}",
                   case=case, fns=FNS_HARV)  # fmt: skip
+
+
+def _changed_fields(o, back) -> str:
+    out = []
+    try:
+        for k, v in o.__dict__.items():
+            w = back.__dict__.get(k)
+            try:
+                same = bool(v == w) and type(v) is type(w)
+            except Exception:
+                same = False
+            if not same:
+                out.append(f"{k}: {sl.short(repr(v), 50)} -> {sl.short(repr(w), 50)}")
+    except Exception:
+        pass
+    return "; ".join(out[:3])
 
 
 def _type_changes(o, back) -> str:
@@ -675,7 +693,7 @@ def run(tier: str, seed: int) -> dict:
             lw = Laws(rec, ctxI, "I:" + name, {"installed": name})
             descs, dicts = _installed_descs(SI, r, 10 if quick else 40)
             inst_laws[name] = (ctxI, lw, descs, dicts)
-            for raw in dicts[: 300 if quick else None]:  # round trips are cheap: every systematic instance
+            for raw in sorted(dicts, key=lambda d: len(canon(d)))[: 300 if quick else None]:  # cheap: every systematic instance, small first
                 try:
                     o = SI.parse_obj(raw)
                 except Exception:
